@@ -13,8 +13,15 @@ func genSpec(r *vh.Rng, deps bool) jobctl.Spec {
 	var s jobctl.Spec
 	nt := r.Range(1, 4)
 	total, tmin := int64(0), int64(0)
+	// task names are independent of the position in spec.tasks: a random selection of 1..9 in random order
+	// ("t7" before "t2": not alphabetical)
+	names := []int64{1, 2, 3, 4, 5, 6, 7, 8, 9}
+	for i := len(names) - 1; i > 0; i-- {
+		k := r.Intn(i + 1)
+		names[i], names[k] = names[k], names[i]
+	}
 	for i := 0; i < nt; i++ {
-		t := jobctl.Task{Name: int64(i + 1), Replicas: int64(r.Range(0, 5)), Cpu: int64(vh.Pick(r, []int{0, 100, 250, 1000})),
+		t := jobctl.Task{Name: names[i], Replicas: int64(r.Range(0, 5)), Cpu: int64(vh.Pick(r, []int{0, 100, 250, 1000})),
 			Mem: int64(vh.Pick(r, []int{0, 64, 128})), Prio: int64(vh.Pick(r, []int{0, 0, 1, 2, 2, 3, 4}))}
 		if r.Chance(2, 3) {
 			t.Min = i64p(int64(r.Range(0, int(t.Replicas))))
@@ -27,7 +34,7 @@ func genSpec(r *vh.Rng, deps bool) jobctl.Spec {
 			t.DepAny = r.Chance(1, 2)
 			for k := 1; k <= i; k++ {
 				if r.Chance(1, 2) {
-					t.Deps = append(t.Deps, int64(k))
+					t.Deps = append(t.Deps, names[k-1])
 				}
 			}
 		}
